@@ -169,12 +169,26 @@ fn main() {
     let cases: Vec<(u64, String, Vec<String>)> = if let Some(rp) = &a.replay {
         replay_cases(hv_common::read_lines(rp)).into_iter().enumerate().map(|(i, (t, l))| (i as u64 + 1, t, prog_lines_of(&l))).collect()
     } else {
-        (0..a.cases).map(|i| { let (t, l) = gen_case(&seed, i, &a.tier); (i + 1, t, l) }).collect()
+        (0..a.cases)
+            .map(|i| {
+                if a.mode == "c20" && i % 6 == 5 {
+                    return (i + 1, "modules".to_string(), Vec::new());
+                }
+                let (t, l) = gen_case(&seed, i, &a.tier);
+                (i + 1, t, l)
+            })
+            .collect()
     };
     for (n, tag, plines) in &cases {
         match a.mode.as_str() {
             "c18" | "c19" => run_partition_case(&mut rec, &a.mode, *n, tag, plines),
-            "c20" => rewrite::run_c20_case(&mut rec, *n, tag, plines),
+            "c20" => {
+                if tag == "modules" {
+                    rewrite::run_c20_module_case(&mut rec, *n, &seed)
+                } else {
+                    rewrite::run_c20_case(&mut rec, *n, tag, plines)
+                }
+            }
             "c42" => rewrite::run_c42_case(&mut rec, *n, tag, plines, &a),
             m => {
                 eprintln!("unknown mode {m}");
